@@ -173,7 +173,8 @@ class PredPat:
 class SplitIt:
     """str::split(pat) / split_terminator(pat);  pat = list of code points"""
 
-    def __init__(s, st, pat, terminator=False):
+    def __init__(s, st, pat, terminator=False, inclusive=False):
+        s.inclusive = inclusive
         s.st = st
         s.pat = pat
         s.cs = st.chars()
@@ -198,9 +199,10 @@ class SplitIt:
                     break
             if hit:
                 o = b.off[base + s.i]
-                r = Str(b, s.start, o)
                 s.i += k
-                s.start = b.off[base + s.i]
+                nxt = b.off[base + s.i]
+                r = Str(b, s.start, nxt if s.inclusive else o)
+                s.start = nxt
                 return Some(r)
             s.i += 1
         s.done = True
@@ -662,6 +664,9 @@ class Models:
             return [PredPat(pr)]
         reg('core::str::<impl str>::split', lambda I, s, p: SplitIt(as_str(s), patlist(I, p)))
         reg('core::str::<impl str>::split_terminator', lambda I, s, p: SplitIt(as_str(s), patlist(I, p), True))
+        # split_inclusive: pieces keep their terminator; no empty piece after a trailing terminator
+        reg('core::str::<impl str>::split_inclusive',
+            lambda I, s, p: SplitIt(as_str(s), patlist(I, p), True, inclusive=True))
         reg('core::str::<impl str>::match_indices', lambda I, s, ch: MatchIdx(as_str(s), ch))
 
         def split_at(I, s, mid):
